@@ -366,7 +366,7 @@ func personParentMapper(entity boltz.Entity) boltz.Entity {
 	return entity
 }
 
-func NewStores() *Stores {
+func NewStores(variant int) *Stores {
 	s := &Stores{}
 	base := []string{rootBucket}
 
@@ -418,6 +418,9 @@ func NewStores() *Stores {
 
 	p := s.People
 	p.AddExtEntitySymbols()
+	if variant&2 != 0 {
+		p.AddConstraint(boltz.NewSystemEntityEnforcementConstraint(p))
+	}
 	p.idxName = p.AddUniqueIndex(p.AddSymbol("name", ast.NodeTypeString))
 	p.idxNick = p.AddNullableUniqueIndex(p.AddSymbol("nick", ast.NodeTypeString))
 	p.idxRoles = p.AddSetIndex(p.AddPublicSetSymbol("roles", ast.NodeTypeString))
@@ -429,7 +432,9 @@ func NewStores() *Stores {
 	p.symBadges = p.AddFkSetSymbol("badges", s.Badges)
 	p.symGroups = p.AddFkSetSymbol("groups", s.Groups)
 	p.symKudos = p.AddFkSetSymbol("kudos", s.Groups)
-	p.AddConstraint(boltz.NewSystemEntityEnforcementConstraint(p))
+	if variant&2 == 0 {
+		p.AddConstraint(boltz.NewSystemEntityEnforcementConstraint(p))
+	}
 
 	st := s.Staff
 	p.GrantSymbols(st)
@@ -437,6 +442,10 @@ func NewStores() *Stores {
 	st.idxBadgeNo = st.AddUniqueIndex(st.AddSymbol("badgeNo", ast.NodeTypeString))
 	// staff uses the repository's own ChildStoreUpdateHandler (the mapper copies the caller's parent fields into
 	// the stored child entity); px uses a hand-written ChildStoreStrategy: both idioms are exercised
+	px := s.PX
+	if variant&1 != 0 {
+		p.RegisterChildStoreStrategy(&pxChildStrategy{store: px})
+	}
 	p.RegisterChildStoreStrategy(&boltz.ChildStoreUpdateHandler[*Person, *Staff]{
 		Store: st,
 		Mapper: func(ctx boltz.MutateContext, parent *Person) (*Staff, bool) {
@@ -452,12 +461,13 @@ func NewStores() *Stores {
 		},
 	})
 
-	px := s.PX
 	p.GrantSymbols(px)
 	// an index of its own on the store that is registered AFTER the plain child store: its entries must go when the
 	// entity is deleted through any of the three stores
 	px.idxMemo = px.AddNullableUniqueIndex(px.AddSymbol("memo", ast.NodeTypeString))
-	p.RegisterChildStoreStrategy(&pxChildStrategy{store: px})
+	if variant&1 == 0 {
+		p.RegisterChildStoreStrategy(&pxChildStrategy{store: px})
+	}
 
 	b := s.Badges
 	b.AddIdSymbol("id", ast.NodeTypeString)
